@@ -249,6 +249,11 @@ def run(ctx):
                 for st7 in f7.blocks[b7]["stmts"]:
                     rv7 = st7.get("rv") or {}
                     if st7["k"] == "assign" and rv7.get("k") == "aggregate" and rv7.get("agg") == "adt" and str(rv7.get("adt", "")).endswith("result::Result") and rv7.get("variant") == "Err":
+                        # an error handed on from a callee (`Err(e) => Err(e)`, which is also what `?`-free combinators such
+                        # as and_then are written out as) is the callee's business
+                        t7 = f7.rvalue(rv7, b7, f7.blocks[b7]["stmts"].index(st7))
+                        if t7[0] == "agg" and t7[3] and any(x[0] == "payload" and x[1] == "Err" for x in walk(t7[3][0])):
+                            continue
                         nerr += 1
                         if c7.block_live(b7):
                             live_err.append("%s:%s" % (key7[0].split("::")[-1], (st7.get("span") or {}).get("line")))
